@@ -206,6 +206,43 @@ impl Prop for C06 {
             ));
         }
 
+        // (c2) two money literals on one line, each in its own spelling ----------------------
+        f.push(Family::new(
+            "arith-spellings",
+            Mode::Full,
+            "M1 + M2, M1 - M2 and M1 / M2 where each operand is written independently in one of 10 spellings (10 usd, 10 USD, $10, 10 $, 10$, and the same with a k or M suffix: 2k usd, $2k, 2k $, $2M, 2M usd) over the currencies [usd $, eur €, try ₺]: the value of the first literal never depends on how the second is spelled and vice versa",
+            move |ch| {
+                // '£' is GBP's printed symbol but no input alias: only the configured symbol aliases are spellings
+                let curs: [(&str, &str); 3] = [("usd", "$"), ("eur", "€"), ("try", "₺")];
+                let spell = |ch: &mut crate::explore::Chooser, n: &str, nv: f64| -> (String, f64, String) {
+                    let (code, sym) = *ch.pick(&curs);
+                    let form = ch.choose(10);
+                    let (t, v) = match form {
+                        0 => (format!("{} {}", n, code), nv),
+                        1 => (format!("{} {}", n, code.to_uppercase()), nv),
+                        2 => (format!("{}{}", sym, n), nv),
+                        3 => (format!("{} {}", n, sym), nv),
+                        4 => (format!("{}{}", n, sym), nv),
+                        5 => (format!("{}k {}", n, code), nv * 1e3),
+                        6 => (format!("{}{}k", sym, n), nv * 1e3),
+                        7 => (format!("{}k {}", n, sym), nv * 1e3),
+                        8 => (format!("{}{}M", sym, n), nv * 1e6),
+                        _ => (format!("{}M {}", n, code), nv * 1e6),
+                    };
+                    (t, v, code.to_string())
+                };
+                let (ta, x, a) = spell(ch, "2", 2.0);
+                let (tb, y, b) = spell(ch, "500", 500.0);
+                let y_in_a = if a == b { y } else { y * rate(&a) / rate(&b) };
+                let (op, want) = match ch.choose(3) {
+                    0 => ('+', money(x + y_in_a, &a)),
+                    1 => ('-', money(x - y_in_a, &a)),
+                    _ => ('/', Val::Number(guarded_div(x, y_in_a), Base::Dec)),
+                };
+                Some(Case::Line(LineCase::new(format!("{} {} {}", ta, op, tb), Expect::Value(want, 1e-9), "two spellings")))
+            },
+        ));
+
         // (d) rate histories -------------------------------------------------------------
         {
             let depth = tier.pick(2, 3);
